@@ -42,7 +42,11 @@ SPEC = {
                 'chainconfig.DecodeChainConfig is an oracle (the harness calls the same function to label entries)',
                 'services.StateMachine (chainlink-common): Ready/Healthy = started and no buffered error; StopOnce/StartOnce once-only',
                 'math/big And/Cmp/Lsh on the bitmap (two\'s-complement And for negative values)',
-                'Go race detector and sync.RWMutex for the concurrent parts'],
+                'Go race detector and sync.RWMutex for the concurrent parts',
+                'lock level: the extractor /verif/locks (syntactic classification of accesses, table of guarded fields, calls on other '
+                'receivers / unguarded fields assumed not to touch the mutex or the guarded fields); sync.RWMutex as modelled (mutual '
+                'exclusion, blocking acquisition, no owner check, writer preference not modelled); sequential consistency of '
+                'lock-protected accesses; no panics inside critical sections'],
     'assumptions': ['one poll goroutine per poller (Start is once-only); polls are sequential',
                     'fewer than 2^64 events for the wrap-free form of the health theorems (the exact form has the wrap)'],
     'level_text': 'PARTIAL. Proof: 21 Coq theorems over the executable model of both pollers, for every event history '
@@ -52,8 +56,17 @@ SPEC = {
                   '(pre-repair home-chain counter refuted, F21a); both-digests-empty is a failed poll; IsNodeObserver = '
                   'bit j of the bitmap for all n<=256 and refuses everything else; node id = position, observer sets = '
                   'bitmap bit for bit; Close ends polling for good. '
-                  'Not proved (tested): freedom from data races and atomicity of the state replacement under the Go memory '
-                  'model - exercised every run with 16 reader goroutines during refresh under the race detector, each observed '
+                  'Lock level (Model/Locks.v, Proofs/LocksP.v, lib/genlocks.py): the action programs (Lock/RLock/Unlock/RUnlock, '
+                  'field reads and writes, struct copies, channel waits, branching, loops, defer resolved) of EVERY method of both '
+                  'pollers are extracted from the Go sources on every run and pass the decidable check well_locked; the general '
+                  'theorem, proved once for all programs over a small-step interleaving semantics of N threads and one RWMutex, then '
+                  'gives for any number of goroutines running any of these methods under any scheduler: no data race, the stored '
+                  'views are one snapshot whenever no write section is open (setState replaces the group completely or not at all), '
+                  'every getter sees fields of ONE snapshot version (never a mixture), no unlock of an unlocked mutex, returned '
+                  'methods hold nothing, a lock holder can always move (no deadlock from the lock operations). Six ill-locked '
+                  'programs refuted by explicit interleavings. '
+                  'Not proved (tested): the Go memory model below lock-protected access and the real scheduler - still exercised every '
+                  'run with 16 reader goroutines during refresh under the race detector, each observed '
                   'view / struct copy checked in Coq to be whole, from one polled configuration, and never older than the previous one.',
     'level_note': 'Trusted: Coq kernel, hand-written model, differential harness (gated scripted contract reader, 300us ticker), '
                   'race detector. A nil observer bitmap panics (F21b, modelled as Panic; it would kill the poll goroutine). '
@@ -61,5 +74,8 @@ SPEC = {
                   'the concurrent part therefore does not call HealthReport. No axioms.',
     'modelled': 'homeChainPoller (poll loop, fetchAndSetConfigs paging, convert, setState + create* views, getters, HealthReport, '
                 'Close), rmnHomePoller (same + both-digests-empty), convertOnChainConfigToRMNHomeChainConfig, IsNodeObserver; '
-                'ticker timing, goroutine scheduling and lock semantics are not modelled',
+                'lock level: every method of homeChainPoller / rmnHomePoller as an action program extracted per run (mutex operations, '
+                'accesses to state.* / rmnHomeState.* / failedPolls, calls among the methods inlined, goroutine starts, channel waits) '
+                'over an interleaving semantics with one RWMutex and version-tagged fields; ticker timing and the values stored are '
+                'not part of the lock-level model',
 }
